@@ -135,11 +135,11 @@ func gridSpec(run *ev.Run, i int, vs vSettings) *tokSpec {
 	s := baseline(r, vs, pick(r, issChoices...))
 	o := int64(vs.Offset / time.Second)
 	m := int64(vs.MaxAge / time.Second)
-	iats := []int64{-(o + 3), -(o + 10), -3600, 0, 1, -1, o + 3, o + 10, 3600, 86400 * 3650, -86400 * 3650}
+	iats := []int64{-(o + 3), -(o + 10), -3, -10, -3600, 0, 1, -1, 3, o + 3, o + 10, 3600, 86400 * 3650, -86400 * 3650}
 	if m > 0 {
-		iats = append(iats, -(m + o + 3), -(m - o - 3), -m, -(m + 1), -(m - 1), -(m + o + 10))
+		iats = append(iats, -(m + o + 3), -(m - o - 3), -m, -(m + 1), -(m - 1), -(m + o + 10), -(m + 3), -(m - 3))
 	}
-	exps := []int64{o + 3, o + 10, 3600, 86400 * 3650, 0, 1, -1, o, -(o + 3), -(o + 10), -3600, -86400 * 3650}
+	exps := []int64{o + 3, o + 10, 3600, 86400 * 3650, 0, 1, -1, o, -3, -10, -(o / 2), -(o - 3), -(o + 3), -(o + 10), -3600, -86400 * 3650}
 	g := i / 10
 	s.IatOff = iats[g%len(iats)]
 	s.ExpOff = exps[(g/len(iats))%len(exps)]
